@@ -382,6 +382,10 @@ func init() {
 		c.ruleWiring("R10", c.constructorsIn("handlers", "spynode"))
 		c.ruleTrustedAnswerNeedsEntry("R11")
 		c.ruleSafeDecidedBeforeDelivery("R12")
+		c.ruleUntrustedErrorsStayLocal("R13")
+		if fl, fk := c.P.Field("storage", "PeerRepository", "lookup"), c.P.Field("storage", "PeerRepository", "list"); fl != nil && fk != nil {
+			c.lockset("R14", "storage", "PeerRepository", "mutex", map[*types.Var]bool{fl: true, fk: true}, []string{"storage"}, map[string]string{"storage.(*PeerRepository).Clear": "not called anywhere in the module (confirmed by who-calls on the confirmed tree)"}, 6)
+		}
 	}
 }
 
